@@ -206,8 +206,9 @@ StringDictionaryHASHHF::StringDictionaryHASHHF(IteratorDictString *it, uint len,
 
             // The next string has fully read!
             if (symbol == 0) {
-              if (((ptrSubstr + (8 - offset)) <= TABLEBITSO)) {
-                // The next string must be parsed...
+              if (((ptrSubstr + (8 - offset)) <= TABLEBITSO) &&
+                  ((current + 1) < elements)) {
+                // The next string must be parsed (if there is one)...
                 codeSubstr = (codeSubstr << (8 - offset));
                 ptrSubstr += (8 - offset);
                 offset = 0;
